@@ -12,7 +12,7 @@ REG = dict(   # rename to REG once the findings below are triaged (fixed in /rep
           "callee, method name (17), field name, struct field/type name, pattern (11) and every annotation (10) replaced; an argument / parameter / struct field / "
           "closure parameter dropped or added; a match arm or an else dropped; a returned value dropped or added; binders renamed. "
           "quick: depth 1 (canonical parameter fill) with all edits + depth 2 for one outer context per (inner template, role of the slot) with all edits inside "
-          "the expanded slot (11-literal alphabet): ~43k programs. thorough: depth 1 with every parameter/literal fill and depth 2 for every outer context, all "
+          "the expanded slot (11-literal alphabet): ~46k programs. thorough: depth 1 with every parameter/literal fill and depth 2 for every outer context, all "
           "edits (~395k), plus every PAIR of disjoint edits (11-literal alphabet, leaves only) of the 81 depth-1 programs (~393k): deviation bound 2. "
           "Each program goes through the code path of `garden check`; programs with no error and no type-related warning are run (tick limit 50000). "
           "Oracle: the run does not end in an exception whose message matches one of the type-related templates of src/eval.rs "
@@ -327,7 +327,8 @@ def run(ctx):
         seen, sel = set(), []
         for b in depth2:
             # contexts that reach the same checker rule share one representative (thorough covers them all)
-            role = {"result of else branch": "result of if branch", "argument of builtin fun": "argument of user fun"}.get(role := tg.slot_role(b[1], b[2]), role)
+            role = {"result of else branch": "result of if branch", "argument of builtin fun": "argument of user fun",
+                    "argument of closure variable": "argument of user fun", "operand of comparison operator": "operand of arithmetic operator"}.get(role := tg.slot_role(b[1], b[2]), role)
             if (b[3], role) not in seen:
                 seen.add((b[3], role))
                 sel.append(b)
